@@ -95,8 +95,21 @@ def dict_comprehension(ctx, e, sc):
         raise OutOfSubset("dict comprehension with non-scalar key / value")
     keys = SymSeq(n, [z3.Array(I.reg.fresh('mapkeys'), z3.IntSort(), sort_of_value(key))], None, 'list', 'mapkeys')
     vals = SymSeq(n, [z3.Array(I.reg.fresh('mapvals'), z3.IntSort(), sort_of_value(val))], None, 'list', 'mapvals')
+    def selects_at(expr):
+        out, stack, seen = [], [expr], set()
+        while stack:
+            t = stack.pop()
+            if t.get_id() in seen:
+                continue
+            seen.add(t.get_id())
+            if z3.is_select(t) and z3.eq(t.arg(1), k) and z3.is_const(t.arg(0)):
+                out.append(t)
+            stack.extend(t.children())
+        return out
     for seq, v in ((keys, key), (vals, val)):
-        I.assume(z3.ForAll([k], z3.Implies(guard, z3.Select(seq.cols[0], k) == to_z3(v, sort=seq.elem_sort())), patterns=[z3.Select(seq.cols[0], k)]))
+        vz = to_z3(v, sort=seq.elem_sort())
+        trig = [z3.Select(seq.cols[0], k)] + selects_at(to_z3(key))
+        I.assume(z3.ForAll([k], z3.Implies(guard, z3.Select(seq.cols[0], k) == vz), patterns=trig))
     return SymMap(I, keys, vals)
 
 
